@@ -36,7 +36,7 @@ example : Gen.Json.startMatches = [[39], [34], [47, 47], [47, 42]] := by decide 
 example : Gen.Json.endMatches = [[39], [34], [10], [42, 47]] := by decide            -- '  "  \n  */
 example : Gen.Json.isComments = [false, false, true, true] := by decide
 example : Gen.Json.requiredMatches = [true, true, false, true] := by decide
-example : Gen.Json.endSearch = "indexEnd(left, endMatches[index], !isComments[index])" := by decide
+example : Gen.Json.endSearch = "indexEnd(_:[]byte, _:[][]byte[_], !_:[]bool[_])" := by decide
 example : Gen.Json.escapeByte = some 92 ∧ escByte = 92 := by decide
 example : Gen.Json.scannerMax ≠ "default" := by decide
 
